@@ -1,5 +1,6 @@
 //! Reference models, written from the property text / Quil specification.
 
+pub mod cal;
 pub mod eval;
 pub mod frames;
 pub mod mem;
